@@ -186,6 +186,10 @@ pub struct ReplayFile {
     pub minimised: bool,
     #[serde(default)]
     pub original_seed: u64,
+    /// "unoptimised" when the finding comes from the dev-profile binary (C15's second pass):
+    /// `./check replay` then uses the same kind of binary.
+    #[serde(default)]
+    pub build: String,
 }
 
 // ---------------------------------------------------------------------------------------------
